@@ -356,6 +356,31 @@ func genC07(g *gen) {
 	}
 	g.line("Definition gen_writer_encodes_first : bool := %s.", coqBool(fwOK))
 
+	// every frame goes through one FrameWriter per connection: count the
+	// NewFrameWriter calls outside package protocol and direct Write calls on
+	// the control stream inside package peer
+	writers, raw := 0, 0
+	for _, dir := range []string{"internal/peer", "internal/agent", "internal/transport", "internal/flood", "internal/stream", "internal/exit", "internal/forward", "internal/shell", "internal/udp", "internal/icmp", "internal/health", "internal/socks5", "internal/sleep"} {
+		for _, f := range parseDir(dir) {
+			ast.Inspect(f, func(n ast.Node) bool {
+				call, ok := n.(*ast.CallExpr)
+				if !ok {
+					return true
+				}
+				fn := src(call.Fun)
+				if fn == "protocol.NewFrameWriter" {
+					writers++
+				}
+				if dir == "internal/peer" && (strings.HasSuffix(fn, "controlStream.Write") || fn == "stream.Write") {
+					raw++
+				}
+				return true
+			})
+		}
+	}
+	g.line("Definition gen_frame_writers_outside_protocol : N := %d.", writers)
+	g.line("Definition gen_raw_stream_writes_in_peer : N := %d.", raw)
+
 	// shell message framing: EncodeMessage allocates 1+len(payload)
 	shellEnv := map[string]int64{}
 	for k, v := range env {
